@@ -328,7 +328,12 @@ impl World {
     pub fn make_appointment(user: &Keys, disp: u8, blob: Blob, tsd: u32) -> (Appointment, String) {
         let locator = Locator::new(txid_of(TxName::D(disp)));
         let a = Appointment::new(locator, make_blob(disp, blob), tsd);
-        let sig = user.sign(&a.to_vec());
+        let mut sig = user.sign(&a.to_vec());
+        if tsd == u32::MAX {
+            // the same signature in its other valid rendering (the zbase32 decoder is case-insensitive): whatever
+            // string the user sent is what the tower stores, returns and signs its receipt over
+            sig = sig.to_ascii_uppercase();
+        }
         (a, sig)
     }
 
